@@ -691,6 +691,50 @@ theorem readLaw_of_domain (f : Field) (v : Val) (h : fieldInDomain f v = true)
     | int n => simp [hkd, Spec.C02.typeOk] at htype
     | date t => simp [hkd, Spec.C02.typeOk] at htype
 
+/-- every field's span of the written line holds that field's rendering (the trailing newline
+lies beyond every span) -/
+theorem spans_written (fs : List Field) (vs : List Val) (rs : List (List Char)) (w : List Char)
+    (hlen : fs.length = vs.length) (hdis : Cfi.Disjoint fs)
+    (hr : All2 (fun (fv : Field × Val) r => rendersTo fv.1 fv.2 r) (fs.zip vs) rs)
+    (hw : writePos fs vs = .ok w) :
+    All2 (fun (f : Field) r => slice w f.start f.stop = r) fs rs := by
+    simp only [writePos, Except.map] at hw
+    cases hwf : writeFields fs vs [] with
+    | error e => simp [hwf] at hw
+    | ok out =>
+      simp only [hwf] at hw
+      injection hw with hw
+      subst hw
+      have h1 := writeFields_spans fs vs rs hlen hr hdis [] out hwf
+      have h2 := (writeFields_shape fs vs rs hlen hr [] [] out hwf (fun i hi => by simp at hi)).2
+      -- every field ends inside `out`
+      have hle : ∀ f ∈ fs, f.stop ≤ out.length := by
+        rw [h2]
+        intro f hf
+        have : ∀ (gs : List Field) (m : Nat), f ∈ gs → f.stop ≤ gs.foldl (fun m f => max m f.stop) m := by
+          intro gs
+          induction gs with
+          | nil => intro _ h; simp at h
+          | cons g gs ih =>
+            intro m h
+            rcases List.mem_cons.mp h with rfl | h
+            · have : ∀ (gs : List Field) (m : Nat), m ≤ gs.foldl (fun m f => max m f.stop) m := by
+                intro gs
+                induction gs with
+                | nil => intro m; exact Nat.le_refl _
+                | cons g gs ih => intro m; exact Nat.le_trans (Nat.le_max_left _ _) (ih _)
+              exact Nat.le_trans (Nat.le_max_right _ _) (this gs _)
+            · exact ih _ h
+        exact this fs _ hf
+      clear hwf hr hlen hdis h2
+      induction h1 with
+      | nil => exact .nil
+      | @cons f r fs' rs' e _ ih =>
+        refine .cons ?_ (ih (fun g hg => hle g (List.mem_cons_of_mem f hg)))
+        have := hle f List.mem_cons_self
+        simp only [slice, List.take_append_of_le_length this]
+        exact e
+
 /-- **Read-back clause of C01** (`Spec.C01.holds`, second conjunct): for every
 positional layout of pairwise disjoint fields and values obeying the read half
 of the law, what is read from the written line is, field by field, the canonical
